@@ -414,6 +414,9 @@ fn solve_generic_multi(
                 &mut queue,
                 &mut work,
             );
+            // nodes left in `work` are handled by the cached traversal below; they must not leak
+            // into the frontier of the next iteration
+            work.clear();
             // send threshold to threads for computation
             let [player_one, player_two] = &player_infosets;
             payoffs.par_extend(queue.par_drain(..).map(|(node, p_chance, p_player)| {
@@ -436,6 +439,8 @@ fn solve_generic_multi(
                 [1.0; 2],
                 &payoffs,
             );
+            // cached payoffs are only valid for the strategies of this iteration
+            payoffs.clear();
             chance_infosets.iter_mut().for_each(ChanceRecurse::advance);
             for (reg, infos) in regs.iter_mut().zip(player_infosets.iter_mut()) {
                 *reg = infos.iter_mut().map(|info| info.advance(it, params)).sum();
